@@ -710,3 +710,13 @@ Proof.
   assert (Hn : ~ boundary_safe doc) by (intros Hs; apply boundary_safeb_spec in Hs; congruence).
   apply (boundary_safe_necessary dark doc dark_ok) in Hn; [|discriminate]. apply Hn, H, dark_ok.
 Qed.
+
+(* ---------- what strip does not recognise ---------- *)
+
+(* an SGR sequence in the wider sense: the parameters may be absent (ESC [ m is "reset") *)
+Definition sgr_any (m : bytes) : Prop :=
+  exists ds, forallb is_param ds = true /\ m = c_esc :: c_lbr :: ds ++ [c_m].
+
+(* StripAllAnsiSequences requires at least one parameter byte: ESC [ m survives, as 3 visible characters *)
+Lemma strip_parameterless : sgr_any (c_esc :: b!"[m") /\ strip (c_esc :: b!"[m") = c_esc :: b!"[m" /\ vis_len (c_esc :: b!"[m") = 3%nat.
+Proof. split; [exists []; split; reflexivity|split; vm_compute; reflexivity]. Qed.
